@@ -58,16 +58,68 @@ def dirty_prog(draw):
 
 
 @st.composite
+def objs_prog(draw):
+    """A simulation over a model's long-lived objects (lock, queue, channel, resource supply, all shared with the other
+    runs of the history) that leaves every one of them as it found it."""
+    sl = lambda: {'op': 'sleep', 'd': draw(st.sampled_from([0, 0.5, 1, 2]))}  # noqa
+    kids = []
+    for i in range(draw(st.integers(1, 3))):
+        kids.append({'name': 'lk%d' % i, 'steps': [sl(), {'op': 'lock', 'i': 0, 'body': [sl(), {'op': 'mark', 'v': i}]}]})
+    n = draw(st.integers(0, 3))
+    if n:
+        kids.append({'name': 'qp', 'steps': [x for j in range(n) for x in (sl(), {'op': 'qput', 's': 0, 'v': j})]})
+        kids.append({'name': 'qc', 'steps': [{'op': 'qget', 's': 0} for _ in range(n)]})
+    m = draw(st.integers(0, 3))
+    if m:
+        kids.append({'name': 'cc', 'steps': [{'op': 'citer', 's': 0, 'n': m}]})
+        kids.append({'name': 'cp', 'steps': [{'op': 'sleep', 'd': 0.5}] + [x for j in range(m) for x in ({'op': 'cput', 's': 0, 'v': 10 + j}, sl())]})
+    for i in range(draw(st.integers(0, 3))):
+        kids.append({'name': 'rb%d' % i, 'steps': [sl(), {'op': 'borrow', 'r': 'R', 'amounts': {'a': draw(st.integers(1, 3))},
+                                                          'body': [sl(), {'op': 'levels', 'r': 'R'}]}]})
+    if draw(st.booleans()):
+        # a borrower that is cancelled while it holds (or still acquires) its share
+        kids.append({'name': 'rv', 'steps': [{'op': 'borrow', 'r': 'R', 'amounts': {'a': 2}, 'body': [{'op': 'sleep', 'd': 5}]}]})
+        kids.append({'name': 'rk', 'steps': [{'op': 'sleep', 'd': draw(st.sampled_from([0, 0, 1]))}] +
+                     [{'op': 'instant'} for _ in range(draw(st.integers(0, 3)))] + [{'op': 'cancel', 'ref': 'rv', 'token': [3]}]})
+    if draw(st.booleans()):
+        # a volatile borrower that is closed forcefully at the end of the scope while it holds its share
+        kids.append({'name': 'rz', 'volatile': True, 'steps': [{'op': 'borrow', 'r': 'R', 'amounts': {'a': 1}, 'body': [{'op': 'sleep', 'd': 50}]}]})
+    kids = [kids[i] for i in draw(st.permutations(list(range(len(kids)))))]
+    if any(k['name'] == 'rk' for k in kids):            # the victim exists before it is cancelled
+        kids = [k for k in kids if k['name'] == 'rv'] + [k for k in kids if k['name'] != 'rv']
+    return {'start': draw(st.sampled_from([0, 0, 5])),
+            'objs': {'shared': True, 'locks': 1, 'queues': 1, 'channels': 1, 'resources': [{'kind': draw(st.sampled_from(['cap', 'res'])),
+                                                                                         'name': 'R', 'levels': {'a': 3}}]},
+            'roots': [{'name': 'r0', 'steps': [{'op': 'scope', 'name': 'S', 'children': kids, 'body': [], 'catch': True},
+                                                {'op': 'levels', 'r': 'R'}]}]}
+
+
+@st.composite
 def cases(draw, tier):
     kind = draw(st.sampled_from(['history', 'history', 'nesting', 'threads']))
     if kind == 'history':
         ops = []
         for _ in range(draw(st.integers(1, 6))):
-            k = draw(st.sampled_from(['ok', 'ok', 'fail', 'leak', 'nested', 'probe', 'dirty', 'gc_inside']))
+            k = draw(st.sampled_from(['ok', 'ok', 'fail', 'leak', 'nested', 'probe', 'dirty', 'gc_inside', 'objs']))
+            if k == 'objs':
+                p = draw(objs_prog())
+                for _ in range(draw(st.integers(1, 3))):
+                    ops.append({'k': 'objs', 'prog': copy.deepcopy(p) if draw(st.booleans()) else draw(objs_prog())})
+                continue
             if k == 'ok':
                 ops.append({'k': 'ok', 'prog': draw(small_prog(tier))})
-                if draw(st.integers(0, 2)) == 0:
-                    ops.append({'k': 'ok', 'prog': copy.deepcopy(ops[-1]['prog'])})      # the same simulation once more
+                if draw(st.integers(0, 11)) == 0:
+                    # a long series of the same simulation, garbage collected in between (memory of finished simulations is
+                    # reused for new ones)
+                    base = ops[-1]['prog']
+                    for _ in range(draw(st.integers(6, 12))):
+                        if draw(st.integers(0, 2)):
+                            ops.append({'k': 'probe', 'collect': True})
+                        ops.append({'k': 'ok', 'prog': copy.deepcopy(base)})
+                elif draw(st.integers(0, 2)) == 0:
+                    if draw(st.booleans()):
+                        ops.append({'k': 'probe', 'collect': True})
+                    ops.append({'k': 'ok', 'prog': copy.deepcopy(ops[-1 if ops[-1]['k'] == 'ok' else -2]['prog'])})      # the same simulation once more
             elif k == 'fail':
                 p = draw(small_prog(tier))
                 for r in p['roots']:
@@ -112,7 +164,7 @@ def cases(draw, tier):
                                                       {'name': 'g1', 'steps': [{'op': 'sleep', 'd': 1.5}, {'op': 'sleep', 'd': 1}]}]}
                 ops.append({'k': 'ok', 'prog': p, 'gc': True})
             else:
-                ops.append({'k': 'probe'})
+                ops.append({'k': 'probe', 'collect': draw(st.booleans())})
         return {'kind': 'history', 'ops': ops}
     if kind == 'nesting':
         outer = draw(small_prog(tier, roots=(1, 3)))
@@ -250,18 +302,27 @@ class C15(Check):
     def history(self, out, case):
         special = 0
         dates = {}          # date condition objects kept by "the program" from one run to the next
+        shared = {}         # ... and its long-lived locks, queues, channels and resource supplies
         for n, op in enumerate(case['ops']):
             k = op['k']
             if k == 'probe':
                 self.after_run(out, 'probe')
+                if op.get('collect'):
+                    import gc
+                    gc.collect()        # the finished simulations are freed now: their memory (and addresses) get reused
                 continue
             prog = op['prog']
             if k in ('fail', 'leak') and prog.get('till') is not None and (prog['till'] < 1e12 or 'inf' in json.dumps(prog['roots'])):
                 raise InvalidCase('the deadline of a failing / leaking run lies beyond everything it does')
-            it, oc, exc, p = execute(prog, Probe(b_step=5000, b_total=80000), hooks={'date_cache': dates})
+            it, oc, exc, p = execute(prog, Probe(b_step=5000, b_total=80000), hooks={'date_cache': dates, 'shared_objs': shared})
             out.evals += 1
             self.after_run(out, k)
-            if k == 'ok' and not op.get('gc'):
+            if k == 'objs':
+                special += 1
+                out.features.add('shared_objects')
+                if oc != 'ok':
+                    out.fail('outcome', 'ok_run_%s:%s' % (oc, type(exc).__name__), 'run #%d: %r' % (n, exc))
+            if (k == 'ok' and not op.get('gc')) or k == 'objs':
                 # the same run alone (fresh objects): what happened earlier on this thread must not matter
                 alone, oc2, exc2, _ = execute(prog, Probe(b_step=5000, b_total=80000))
                 out.evals += 1
